@@ -1337,7 +1337,8 @@ class _Exec:
             body = self.expr(e.body)
             self.comp_scopes.pop()
             self.bv_depth -= 1
-            return ("lambda", tuple(f"_b{self.bv_depth + 1}_{i}" for i in range(len(names))), body)
+            r = ("lambda", tuple(f"_b{self.bv_depth + 1}_{i}" for i in range(len(names))), body)
+            return canon_bv(r) if self.bv_depth == 0 else r
         if isinstance(e, ast.NamedExpr):
             v = self.expr(e.value)
             self.assign(e.target, v, e)
@@ -1387,18 +1388,83 @@ class _Exec:
         return canon_bv(r) if self.bv_depth == 0 else r
 
 
+_UNIQ = [0]
+
+
 def canon_bv(t):
     """Bound variables numbered by the HEIGHT of the comprehension that binds them (1 for a comprehension without
     nested comprehensions, otherwise 1 + the largest height inside it).  The numbering of a closed sub-term does
     not depend on where the sub-term occurs, so a value keeps its identity when it is used inside another
-    comprehension, and alpha-equivalent comprehensions are equal terms."""
-    return _canon_bv(t)[0]
+    comprehension, and alpha-equivalent comprehensions are equal terms.  Step 1 gives every binder a fresh id,
+    respecting shadowing (so a term into which other closed terms were inlined is treated correctly); step 2
+    numbers by height."""
+    return _canon_bv(_uniquify(t, {}))[0]
+
+
+def _binder_parts(t):
+    """(kind, generators [(target, iterable, conds)], body parts) of a binding construct, else None."""
+    if is_term(t) and t[0] == "comp" and len(t) == 4:
+        return "comp"
+    if is_term(t) and t[0] == "op" and len(t) == 5 and t[1] == "count" and {"where", "for", "in"} <= {k for k, _ in t[2]}:
+        return "count"
+    return None
+
+
+def _uniquify(t, env):
+    if not isinstance(t, tuple):
+        return t
+    if is_term(t) and t[0] == "bv" and len(t) == 3:
+        return env.get(t, t)
+    kind = _binder_parts(t)
+    if is_term(t) and t[0] == "lambda" and len(t) == 3 and all(isinstance(n, str) and n.startswith("_b") for n in t[1]):
+        env2 = dict(env)
+        _UNIQ[0] += 1
+        names = []
+        for k, n in enumerate(t[1]):
+            d_, _, i_ = n[2:].partition("_")
+            old = ("bv", int(d_) if d_.isdigit() else d_, int(i_) if i_.isdigit() else k)
+            env2[old] = ("bv", f"q{_UNIQ[0]}", k)
+            names.append(f"_bq{_UNIQ[0]}_{k}")
+        return ("lambda", tuple(names), _uniquify(t[2], env2))
+    if kind == "comp":
+        env2 = dict(env)
+        gens = []
+        for tg, it, conds in t[3]:
+            it2 = _uniquify(it, env2)
+            _UNIQ[0] += 1
+            for k, b in enumerate([x for x in walk(tg) if x[0] == "bv"] if is_term(tg) else []):
+                env2[b] = ("bv", f"q{_UNIQ[0]}", k)
+            gens.append((_uniquify(tg, env2), it2, tuple(_uniquify(c, env2) for c in conds)))
+        elt = t[2]
+        elt2 = tuple(_uniquify(x, env2) for x in elt) if t[1] == "dict" else _uniquify(elt, env2)
+        return ("comp", t[1], elt2, tuple(gens))
+    if kind == "count":
+        d = dict(t[2])
+        env2 = dict(env)
+        it2 = _uniquify(d["in"], env2)
+        _UNIQ[0] += 1
+        for k, b in enumerate([x for x in walk(d["for"]) if x[0] == "bv"] if is_term(d["for"]) else []):
+            env2[b] = ("bv", f"q{_UNIQ[0]}", k)
+        d2 = {**{k: _uniquify(v, env) for k, v in d.items() if k not in ("where", "for", "in")},
+              "where": _uniquify(d["where"], env2), "for": _uniquify(d["for"], env2), "in": it2}
+        return ("op", "count", tuple(sorted(d2.items())), _uniquify(t[3], env), _uniquify(t[4], env))
+    return tuple(_uniquify(x, env) if isinstance(x, tuple) else x for x in t)
 
 
 def _canon_bv(t):
     if not isinstance(t, tuple):
         return t, 0
-    if is_term(t) and t[0] == "comp" and len(t) == 4:
+    kind = _binder_parts(t)
+    if is_term(t) and t[0] == "lambda" and len(t) == 3 and all(isinstance(n, str) and n.startswith("_bq") for n in t[1]):
+        body, h = _canon_bv(t[2])
+        h += 1
+        mapping, names = {}, []
+        for k, n in enumerate(t[1]):
+            u = n[2:].rpartition("_")[0]
+            mapping[("bv", u, k)] = ("bv", h, k)
+            names.append(f"_b{h}_{k}")
+        return ("lambda", tuple(names), _rename_bv(body, mapping)), h
+    if kind == "comp":
         h = 0
         gens = []
         for tg, it, conds in t[3]:
@@ -1424,9 +1490,19 @@ def _canon_bv(t):
                 if b not in mapping:
                     mapping[b] = ("bv", h, k)
                     k += 1
-        if all(key == val for key, val in mapping.items()):
-            return ("comp", t[1], elt, tuple(gens)), h
         return _rename_bv(("comp", t[1], elt, tuple(gens)), mapping), h
+    if kind == "count":
+        d = dict(t[2])
+        parts = {}
+        h = 0
+        for k_, v in d.items():
+            v2, hv = _canon_bv(v)
+            parts[k_] = v2
+            h = max(h, hv)
+        h += 1
+        mapping = {b: ("bv", h, k) for k, b in enumerate([x for x in walk(parts["for"]) if x[0] == "bv"] if is_term(parts["for"]) else [])}
+        r = ("op", "count", tuple(sorted(parts.items())), t[3], t[4])
+        return _rename_bv(r, mapping), h
     out, h = [], 0
     for x in t:
         if isinstance(x, tuple):
